@@ -9,6 +9,8 @@
 // ops (action):
 //   gf <src> <dst> <prio> <len> <hexdata>   a reassembled 126208 message (hexdata = all bytes the frames carry)
 //   t <ms> | poll | getDevInfo <d> | getInstDesc | getHeartbeat <d> | readResetFlags
+// The oracle states no latency and no order among answers: a request that produced nothing yet stays pending and is judged
+// when its answer arrives at a later poll; it is unanswered only after 1 s of polling (the generator polls until then).
 // output of gf/poll: messages "pgn:src:dst:prio:hexpayload" (heartbeat payload without its interval bytes, periodic
 // heartbeats are dropped: C12), "-" when none.
 #include "node.h"
@@ -42,7 +44,6 @@ struct Shadow {
   bool devValid = true, hbValid = true;      // false after a request the oracle does not judge: resynchronise from the node
   unsigned devinst = 0, sys = 0; uint32_t hbPeriod = 60000, hbOffset = 10000;
   bool mayClaim = false;                     // a 60928 request/command may have armed the delayed address claim
-  int64_t awaitSince = -1; long awaitLine = 0;   // a served 60928 request owes an address claim
 };
 static std::vector<Shadow> sh;
 static bool confValid = true; static std::string shD1, shD2;
@@ -92,6 +93,7 @@ static int devOfAddr(unsigned a) { for (size_t i = 0; i < cfg.devs.size(); i++) 
 static std::string cs(const std::string &s, size_t maxc) { std::string r; for (char c : s) { if (!c || r.size() >= maxc) break; r += c; } return r; }
 static std::string bytesStr(const std::vector<unsigned char> &v) { return std::string(v.begin(), v.end()); }
 
+static void resetOracle(size_t n);
 static void build() {
   if (cfg.built) return;
   cfg.built = true;
@@ -118,7 +120,7 @@ static void build() {
   if (g_now != cfg.now) C.fail("harness:clock", "settled at %llu, op line says %llu", (unsigned long long)g_now, (unsigned long long)cfg.now);
   for (int i = 0; i < n; i++) if (N->src(i) != cfg.devs[i].src) C.fail("harness:address", "device %d has address %u, configured %u", i, N->src(i), cfg.devs[i].src);
   if (!N->isOpen()) C.fail("harness:not-open", "node did not open");
-  sh.assign(n, Shadow());
+  sh.assign(n, Shadow()); resetOracle((size_t)n);
   for (int i = 0; i < n; i++) { sh[i].devinst = cfg.devs[i].devinst; sh[i].sys = cfg.devs[i].sys; }
   confValid = true; shD1 = cs(cfg.d1, 70); shD2 = cs(cfg.d2, 70); expDev = 0; expInst = 0;
 }
@@ -281,121 +283,197 @@ static void checkConfMsg(const OutMsg &m) {
   if (a != shD1 || b != shD2) C.fail("C09:126998-readback", "configuration information carries '%s' / '%s', commanded '%s' / '%s'", a.c_str(), b.c_str(), shD1.c_str(), shD2.c_str());
   else C.count("conf_readback_checked");
 }
-static void checkClaim(const OutMsg &m) {
+// A request is answered "towards the requester"; the property states no latency and no order among several answer
+// messages. An addressed request that produced nothing yet therefore stays PENDING: whatever the device emits later
+// (Acknowledge, or the requested PGN) is its answer and is judged then; only if nothing arrives within ANSWER_BOUND_MS of
+// polling is it unanswered. (The library itself delays the address claim that answers a 60928 request.)
+static const int64_t ANSWER_BOUND_MS = 1000;
+struct Pending { bool active = false; Req q; unsigned reqSrc = 0; bool bc = false, demanded = false; int64_t since = 0; long line = 0; };
+static std::vector<Pending> pend;
+typedef std::map<unsigned long, int64_t> Served;   // PGN -> start of the window in which (more of) it may arrive
+static std::vector<Served> lastServed;      // further messages of a served PGN may trail (e.g. the second PGN list)
+static void resetOracle(size_t n) { pend.assign(n, Pending()); lastServed.assign(n, Served()); }
+
+static void checkClaimName(const OutMsg &m) {
   int d = devOfAddr(m.src);
   if (d < 0 || m.pl.size() != 8) { C.fail("C09:claim-shape", "address claim from %u with %zu bytes", m.src, m.pl.size()); return; }
-  if (!sh[d].mayClaim) C.fail("C09:unexpected-claim", "device %d claims without a 60928 request or command", d);
-  sh[d].awaitSince = -1;
   if (sh[d].devValid && (m.pl[4] != sh[d].devinst || (m.pl[7] & 0x0f) != sh[d].sys)) C.fail("C09:60928-claim-name", "claim carries instance %u / system %u, expected %u / %u", m.pl[4], m.pl[7] & 0x0f, sh[d].devinst, sh[d].sys);
+}
+// an address claim nobody asked for by a request: allowed once after a 60928 command (a NAME change is re-announced)
+static void checkClaim(const OutMsg &m) {
+  int d = devOfAddr(m.src);
+  checkClaimName(m);
+  if (d < 0) return;
+  if (!sh[d].mayClaim) C.fail("C09:unexpected-claim", "device %d claims without a 60928 request or command", d);
+  sh[d].mayClaim = false; C.count("claim_seen");
 }
 
 static std::string caseDesc; static bool caseServed = false, caseAck = false;
+static bool isDedicated(const Req &q) { return q.havePgn && (q.pgn == 60928UL || q.pgn == 126464UL || q.pgn == 126993UL || q.pgn == 126996UL || q.pgn == 126998UL); }
+
+// the answer of device d to request q has arrived (acks and/or messages with the requested PGN): judge it
+static void judge(size_t d, const Req &q, unsigned reqSrc, bool bc, const std::vector<const OutMsg *> &acks, const std::vector<const OutMsg *> &pos) {
+  unsigned A = cfg.devs[d].src; bool dedicated = isDedicated(q);
+  for (auto a : acks) checkAck(*a, q, reqSrc, A);
+  for (auto m : pos) { if (m->pgn == 126998UL) checkConfMsg(*m); if (m->pgn == 60928UL) { checkClaimName(*m); C.count("claim_seen"); } }
+  std::string cls = std::to_string(q.fc) + ":" + std::to_string(q.pgn);
+  if (!pos.empty()) lastServed[d][q.pgn] = (int64_t)g_now;
+  if (bc) {   // broadcast request
+    if (!acks.empty()) C.fail("C09:broadcast-acknowledged", "device %zu acknowledges a broadcast request for PGN %lu", d, q.pgn);
+    if (!pos.empty() && !dedicated) C.fail("C09:broadcast-unrelated", "PGN %lu", q.pgn);
+    bool served = !pos.empty();
+    bool j = q.judged && !q.skipped && q.pgn != 126993UL && q.interval == 0xffffffffU && q.offset == 0xffff;
+    if (j && served != (bool)q.match[d]) C.fail(fieldKey(q), "broadcast request, device %zu: fields %s but %s", d, q.match[d] ? "match" : "do not match", served ? "served" : "not served");
+    if (q.pgn == 126993UL) sh[d].hbValid = false, expDev = -1;
+    return;
+  }
+  if (acks.size() > 1) C.fail("C09:multiple-acknowledge:fc" + std::to_string(q.fc), "%zu Acknowledges", acks.size());
+  if (q.fc == 1 || q.fc == 3 || q.fc == 5) {
+    if (acks.size() != 1) C.fail("C09:unanswered:fc" + std::to_string(q.fc) + (dedicated ? ":" + std::to_string(q.pgn) : ""), "addressed command/read/write for PGN %lu got %zu Acknowledges", q.pgn, acks.size());
+    else caseAck = true;
+    C.nontrivial("cmd:" + cls + ":" + std::to_string(q.pairs));
+    if (q.fc == 1 && q.judged && q.pgn == 60928UL) {
+      unsigned di = sh[d].devinst, si = sh[d].sys;
+      if (q.cLower >= 0) di = (di & 0xF8) | (unsigned)q.cLower;
+      if (q.cUpper >= 0) di = (di & 0x07) | ((unsigned)q.cUpper << 3);
+      if (q.cSys >= 0) si = (unsigned)q.cSys;
+      if (sh[d].devValid && (di != sh[d].devinst || si != sh[d].sys) && expDev != -1) expDev = 1;
+      if (!sh[d].devValid) expDev = -1;
+      sh[d].devinst = di; sh[d].sys = si; sh[d].mayClaim = true;      // a NAME change is followed by a new address claim
+      C.count("cmd60928_judged");
+    } else if (q.fc == 1 && q.judged && q.pgn == 126998UL) {
+      if (confValid) { if ((q.w1 && q.s1 != shD1) || (q.w2 && q.s2 != shD2)) { if (expInst != -1) expInst = 1; } else if (q.w1 || q.w2) expInst = -1; }
+      else expInst = -1;
+      if (q.w1) shD1 = q.s1; if (q.w2) shD2 = q.s2;
+      C.count("cmd126998_judged");
+    } else if (q.fc == 1 && (q.pgn == 60928UL || q.pgn == 126998UL)) {
+      // malformed command for a PGN with a command handler: effects not predicted
+      if (q.pgn == 60928UL) { sh[d].devValid = false; sh[d].mayClaim = true; expDev = -1; } else { confValid = false; expInst = -1; }
+    }
+    // every other command / read / write is not supported: the shadow stays, so a state change shows at the read-back
+    return;
+  }
+  // fc 0 addressed
+  bool served = acks.empty() && !pos.empty();
+  if (!acks.empty() && !pos.empty()) C.fail("C09:ack-and-answer", "request for PGN %lu answered by %zu messages AND an Acknowledge", q.pgn, pos.size());
+  if (!pos.empty() && !dedicated) C.fail("C09:unrelated-answer:fc0", "PGN %lu", q.pgn);
+  if (served) caseServed = true; else caseAck = true;
+  C.nontrivial("req:" + cls + ":" + (served ? "s" : "a") + ":" + (q.fields.empty() ? "-" : std::to_string(q.fields[0])) + ":" + std::to_string(q.fields.size()));
+  if (q.pgn == 126993UL) {
+    bool noChange = q.interval == 0xffffffffU && q.offset == 0xffff;
+    if (q.judged && q.haveTiming && !noChange && q.interval != 0xffffffffU && q.interval != 0xfffffffeU) {
+      bool within = q.interval >= 1000 && q.interval <= 60000 && (q.offset == 0xffff || q.offset <= 6000);
+      if (within != served) C.fail(std::string("C09:126993-limits:") + (within ? "refused-inside" : "accepted-outside"), "interval %u offset %u: %s", q.interval, q.offset, served ? "heartbeat sent" : "Acknowledge");
+      if (within) {
+        uint32_t np = q.interval, no = sh[d].hbOffset; bool offKnown = true;
+        if (q.offset != 0xffff && q.offset != 0) no = q.offset * 10U; else if (q.offset == 0) offKnown = false;   // offset 0: not judged
+        if (sh[d].hbValid && (np != sh[d].hbPeriod || (offKnown && no != sh[d].hbOffset)) && expDev != -1) expDev = 1;
+        sh[d].hbPeriod = np; if (offKnown) sh[d].hbOffset = no; else { sh[d].hbValid = false; expDev = -1; }
+      }
+      C.count(within ? "hb_within" : "hb_outside");
+    } else { sh[d].hbValid = false; expDev = -1; }
+    return;
+  }
+  if (dedicated && q.judged && !q.skipped && q.interval == 0xffffffffU && q.offset == 0xffff) {
+    if (served != (bool)q.match[d]) C.fail(fieldKey(q), "device %zu: selection fields %s the device's values but the request was %s", d, q.match[d] ? "match" : "do not match", served ? "served" : "answered by an Acknowledge");
+    C.count(q.match[d] ? "judged_match" : "judged_mismatch");
+  } else C.count("unjudged_request");
+}
+
+// nothing came out yet for q on device d: keep it pending (what its effects will be is unknown until the answer shows)
+static void defer(size_t d, const Req &q, unsigned reqSrc, bool bc, bool demanded) {
+  if (pend[d].active) C.count("pending_overlapped");
+  pend[d].active = true; pend[d].q = q; pend[d].reqSrc = reqSrc; pend[d].bc = bc; pend[d].demanded = demanded; pend[d].since = (int64_t)g_now; pend[d].line = C.opline;
+  C.count(demanded ? "answer_pending" : "broadcast_watch");
+  if (q.fc == 1 && q.pgn == 60928UL) { sh[d].devValid = false; sh[d].mayClaim = true; expDev = -1; }
+  if (q.fc == 1 && q.pgn == 126998UL) { confValid = false; expInst = -1; }
+  if (q.fc == 0 && q.pgn == 126993UL) { sh[d].hbValid = false; expDev = -1; }
+}
+
+// messages that answer a pending request are taken out of `out` and judged; returns what is left
+static std::vector<OutMsg> routeLate(const std::vector<OutMsg> &out, int skipDev) {
+  std::vector<OutMsg> rest; size_t n = cfg.devs.size();
+  std::vector<std::vector<const OutMsg *>> la(n), lp(n);
+  for (auto &m : out) {
+    int d = devOfAddr(m.src);
+    if (d >= 0 && d != skipDev && pend[d].active) {
+      const Req &q = pend[d].q;
+      if (m.pgn == 126208UL) { la[d].push_back(&m); continue; }
+      if (q.fc == 0 && q.havePgn && m.pgn == q.pgn) { lp[d].push_back(&m); continue; }
+    }
+    rest.push_back(m);
+  }
+  for (size_t d = 0; d < n; d++) if (!la[d].empty() || !lp[d].empty()) {
+    C.count("late_answer"); pend[d].active = false;
+    judge(d, pend[d].q, pend[d].reqSrc, pend[d].bc, la[d], lp[d]);
+  }
+  return rest;
+}
+// what no request explains: an address claim is allowed after a 60928 command, a trailing message of a PGN just served too
+static void unsolicited(const std::vector<OutMsg> &rest, const char *where) {
+  for (auto &m : rest) {
+    int d = devOfAddr(m.src);
+    if (d >= 0 && lastServed[d].count(m.pgn) && (int64_t)g_now - lastServed[d][m.pgn] <= ANSWER_BOUND_MS) {
+      if (m.pgn == 126998UL) checkConfMsg(m); if (m.pgn == 60928UL) checkClaimName(m); C.count("trailing_answer"); continue; }
+    if (m.pgn == 60928UL) { checkClaim(m); continue; }
+    C.fail(std::string("C09:unsolicited:") + where, "PGN %lu from %u without a request", m.pgn, m.src);
+  }
+}
+static void checkDeadline() {
+  for (size_t d = 0; d < pend.size(); d++) if (pend[d].active && (int64_t)g_now - pend[d].since >= ANSWER_BOUND_MS) {
+    const Req &q = pend[d].q;
+    if (pend[d].demanded) C.fail("C09:unanswered:fc" + std::to_string(q.fc) + (isDedicated(q) ? ":" + std::to_string(q.pgn) : std::string()), "request of op %ld for PGN %lu: no answer within %lld ms of polling", pend[d].line, q.pgn, (long long)((int64_t)g_now - pend[d].since));
+    pend[d].active = false;
+  }
+}
 
 static void oracleGf(unsigned reqSrc, unsigned dst, const std::vector<unsigned char> &p, const std::vector<OutMsg> &out0) {
   Req q = readReq(p);
   size_t n = cfg.devs.size();
-  // delayed address claims armed earlier may surface in any op
-  std::vector<OutMsg> out;
-  for (auto &m : out0) { if (m.pgn == 60928UL) { checkClaim(m); int d = devOfAddr(m.src); if (d >= 0) sh[d].mayClaim = false; C.count("claim_seen"); } else out.push_back(m); }
-  for (auto &m : out) if (m.pgn == 126998UL) checkConfMsg(m);
   int target = devOfAddr(dst);
   bool bc = dst == 255;
   C.count("fc_" + std::to_string(q.fc > 7 ? 7 : q.fc));
-  if (!nodeMode()) { if (!out.empty()) C.fail("C09:answer-in-listen-mode", "%zu messages", out.size()); return; }
-  if (!bc && target < 0) { if (!out.empty()) C.fail("C09:answered-foreign", "request for address %u answered with %zu messages", dst, out.size()); return; }
+  if (!nodeMode()) { if (!out0.empty()) C.fail("C09:answer-in-listen-mode", "%zu messages", out0.size()); return; }
+  bool asks = (q.fc == 0 || q.fc == 1 || q.fc == 3 || q.fc == 5) && (bc ? q.fc == 0 : target >= 0);
+  // a device that is asked now gives up an older pending request (its answer could not be told apart)
+  // (a request for a served PGN that produced nothing yet may still be answered: such a message is tolerated for the rest of its window)
+  if (asks) for (size_t d = 0; d < n; d++) if ((bc || (int)d == target) && pend[d].active) {
+    pend[d].active = false; C.count("pending_overlapped");
+    if (pend[d].q.fc == 0 && isDedicated(pend[d].q)) lastServed[d][pend[d].q.pgn] = pend[d].since;
+  }
+  // answers to requests still pending on OTHER devices may surface in this op
+  std::vector<OutMsg> out = routeLate(out0, -1);
+  auto leftover = [&](const std::vector<OutMsg> &v, const char *w) { unsolicited(v, w); };
+  if (!bc && target < 0) { std::vector<OutMsg> r; for (auto &m : out) { if (m.pgn == 60928UL) r.push_back(m); else C.fail("C09:answered-foreign", "request for address %u answered with PGN %lu", dst, m.pgn); } leftover(r, "foreign"); return; }
   auto invalidateAll = [&]() { for (auto &s : sh) { s.devValid = s.hbValid = false; } confValid = false; expDev = expInst = -1; };
   if (q.fc == 2 || q.fc == 4 || q.fc == 6) {
-    if (!out.empty()) C.fail("C09:answered-reply:fc" + std::to_string(q.fc), "%zu messages answer an Acknowledge/ReadReply/WriteReply", out.size());
+    std::vector<OutMsg> r; for (auto &m : out) { if (m.pgn == 60928UL) r.push_back(m); else C.fail("C09:answered-reply:fc" + std::to_string(q.fc), "PGN %lu answers an Acknowledge/ReadReply/WriteReply", m.pgn); } leftover(r, "reply");
     C.nontrivial("reply:" + std::to_string(q.fc) + ":" + std::to_string(q.pgn) + (bc ? "b" : "a")); return;   // and no state change: shadow unchanged
   }
   if (bc && (q.fc == 1 || q.fc == 3 || q.fc == 5)) {
-    if (!out.empty()) C.fail("C09:broadcast-answered:fc" + std::to_string(q.fc), "%zu messages answer a broadcast command/read/write", out.size());
+    std::vector<OutMsg> r; for (auto &m : out) { if (m.pgn == 60928UL) r.push_back(m); else C.fail("C09:broadcast-answered:fc" + std::to_string(q.fc), "PGN %lu answers a broadcast command/read/write", m.pgn); } leftover(r, "broadcast");
     C.nontrivial("bc:" + std::to_string(q.fc) + ":" + std::to_string(q.pgn)); return;
   }
   if (q.fc > 6) { C.count("invalid_function_code"); if (!out.empty()) C.count("invalid_function_code_answered"); invalidateAll(); return; }
-  bool dedicated = q.havePgn && (q.pgn == 60928UL || q.pgn == 126464UL || q.pgn == 126993UL || q.pgn == 126996UL || q.pgn == 126998UL);
-  // ---- per device
+  bool dedicated = isDedicated(q);
+  std::vector<OutMsg> rest;
+  for (auto &m : out) { int d = devOfAddr(m.src); if (d < 0 || (!bc && d != target)) rest.push_back(m); }
+  // ---- per asked device
   for (size_t d = 0; d < n; d++) {
-    if (!bc && (int)d != target) { for (auto &m : out) if (m.src == cfg.devs[d].src) C.fail("C09:answer-from-wrong-device", "device %zu answers a request for device %d", d, target); continue; }
+    if (!bc && (int)d != target) continue;
     unsigned A = cfg.devs[d].src;
-    std::vector<const OutMsg *> acks, pos, other;
-    for (auto &m : out) if (m.src == A) { if (m.pgn == 126208UL) acks.push_back(&m); else if (q.fc == 0 && q.havePgn && m.pgn == q.pgn) pos.push_back(&m); else other.push_back(&m); }
-    for (auto a : acks) checkAck(*a, q, reqSrc, A);
-    std::string cls = std::to_string(q.fc) + ":" + std::to_string(q.pgn);
-    if (!other.empty()) C.fail("C09:unrelated-answer:fc" + std::to_string(q.fc), "message with PGN %lu answers a group function for PGN %lu", other[0]->pgn, q.pgn);
-    if (bc) {   // broadcast request
-      if (!acks.empty()) C.fail("C09:broadcast-acknowledged", "device %zu acknowledges a broadcast request for PGN %lu", d, q.pgn);
-      if (!pos.empty() && !dedicated) C.fail("C09:broadcast-unrelated", "PGN %lu", q.pgn);
-      bool served = !pos.empty();
+    std::vector<const OutMsg *> acks, pos;
+    for (auto &m : out) if (m.src == A) { if (m.pgn == 126208UL) acks.push_back(&m); else if (q.fc == 0 && q.havePgn && m.pgn == q.pgn) pos.push_back(&m); else rest.push_back(m); }
+    if (acks.empty() && pos.empty()) {
       bool j = q.judged && !q.skipped && q.pgn != 126993UL && q.interval == 0xffffffffU && q.offset == 0xffff;
-      if (q.pgn == 60928UL) {   // the answer is a delayed address claim: a judged match owes one, a judged mismatch must not arm one
-        if (j && q.match[d]) { sh[d].mayClaim = true; sh[d].awaitSince = (int64_t)g_now; sh[d].awaitLine = C.opline; }
-        else if (!j) sh[d].mayClaim = true;
-      } else if (j && served != (bool)q.match[d]) C.fail(fieldKey(q), "broadcast request, device %zu: fields %s but %s", d, q.match[d] ? "match" : "do not match", served ? "served" : "not served");
-      if (q.pgn == 126993UL) sh[d].hbValid = false, expDev = -1;
+      if (!bc) defer(d, q, reqSrc, false, true);                               // an addressed message must be answered
+      else if (dedicated) defer(d, q, reqSrc, true, j && q.match[d]);          // a matching broadcast request too; a mismatching one must stay silent
       continue;
     }
-    // addressed
-    if (acks.size() > 1) C.fail("C09:multiple-acknowledge:fc" + std::to_string(q.fc), "%zu Acknowledges", acks.size());
-    if (q.fc == 1 || q.fc == 3 || q.fc == 5) {
-      if (acks.size() != 1) C.fail("C09:unanswered:fc" + std::to_string(q.fc) + (dedicated ? ":" + std::to_string(q.pgn) : ""), "addressed command/read/write for PGN %lu got %zu Acknowledges", q.pgn, acks.size());
-      else caseAck = true;
-      C.nontrivial("cmd:" + cls + ":" + std::to_string(q.pairs));
-      if (q.fc == 1 && q.judged && q.pgn == 60928UL) {
-        unsigned di = sh[d].devinst, si = sh[d].sys;
-        if (q.cLower >= 0) di = (di & 0xF8) | (unsigned)q.cLower;
-        if (q.cUpper >= 0) di = (di & 0x07) | ((unsigned)q.cUpper << 3);
-        if (q.cSys >= 0) si = (unsigned)q.cSys;
-        if (sh[d].devValid && (di != sh[d].devinst || si != sh[d].sys) && expDev != -1) expDev = 1;
-        if (!sh[d].devValid) expDev = -1;
-        sh[d].devinst = di; sh[d].sys = si; sh[d].mayClaim = true;      // a NAME change is followed by a new address claim
-        C.count("cmd60928_judged");
-      } else if (q.fc == 1 && q.judged && q.pgn == 126998UL) {
-        if (confValid) { if ((q.w1 && q.s1 != shD1) || (q.w2 && q.s2 != shD2)) { if (expInst != -1) expInst = 1; } else if (q.w1 || q.w2) expInst = -1; }
-        else expInst = -1;
-        if (q.w1) shD1 = q.s1; if (q.w2) shD2 = q.s2;
-        C.count("cmd126998_judged");
-      } else if (q.fc == 1 && (q.pgn == 60928UL || q.pgn == 126998UL)) {
-        // malformed command for a PGN with a command handler: effects not predicted
-        if (q.pgn == 60928UL) { sh[d].devValid = false; sh[d].mayClaim = true; expDev = -1; } else { confValid = false; expInst = -1; }
-      }
-      // every other command / read / write is not supported: the shadow stays, so a state change shows at the read-back
-      continue;
-    }
-    // fc 0 addressed
-    bool served = acks.empty() && (!pos.empty() || q.pgn == 60928UL);
-    if (!acks.empty() && !pos.empty()) C.fail("C09:ack-and-answer", "request for PGN %lu answered by %zu messages AND an Acknowledge", q.pgn, pos.size());
-    if (acks.empty() && pos.empty() && !(dedicated && q.pgn == 60928UL)) C.fail("C09:unanswered:fc0" + (dedicated ? ":" + std::to_string(q.pgn) : std::string()), "addressed request for PGN %lu not answered", q.pgn);
-    if (!pos.empty() && !dedicated) C.fail("C09:unrelated-answer:fc0", "PGN %lu", q.pgn);
-    if (served) caseServed = true; else caseAck = true;
-    C.nontrivial("req:" + cls + ":" + (served ? "s" : "a") + ":" + (q.fields.empty() ? "-" : std::to_string(q.fields[0])) + ":" + std::to_string(q.fields.size()));
-    if (q.pgn == 60928UL) { if (served) { sh[d].mayClaim = true; sh[d].awaitSince = (int64_t)g_now; sh[d].awaitLine = C.opline; } }
-    if (q.pgn == 126993UL) {
-      bool noChange = q.interval == 0xffffffffU && q.offset == 0xffff;
-      if (q.judged && q.haveTiming && !noChange && q.interval != 0xffffffffU && q.interval != 0xfffffffeU) {
-        bool within = q.interval >= 1000 && q.interval <= 60000 && (q.offset == 0xffff || q.offset <= 6000);
-        if (within != served) C.fail(std::string("C09:126993-limits:") + (within ? "refused-inside" : "accepted-outside"), "interval %u offset %u: %s", q.interval, q.offset, served ? "heartbeat sent" : "Acknowledge");
-        if (within) {
-          uint32_t np = q.interval, no = sh[d].hbOffset; bool offKnown = true;
-          if (q.offset != 0xffff && q.offset != 0) no = q.offset * 10U; else if (q.offset == 0) offKnown = false;   // offset 0: not judged
-          if (sh[d].hbValid && (np != sh[d].hbPeriod || (offKnown && no != sh[d].hbOffset)) && expDev != -1) expDev = 1;
-          sh[d].hbPeriod = np; if (offKnown) sh[d].hbOffset = no; else { sh[d].hbValid = false; expDev = -1; }
-        }
-        C.count(within ? "hb_within" : "hb_outside");
-      } else { sh[d].hbValid = false; expDev = -1; }
-      continue;
-    }
-    if (dedicated && q.judged && !q.skipped && q.interval == 0xffffffffU && q.offset == 0xffff) {
-      if (served != (bool)q.match[d]) C.fail(fieldKey(q), "device %zu: selection fields %s the device's values but the request was %s", d, q.match[d] ? "match" : "do not match", served ? "served" : "answered by an Acknowledge");
-      C.count(q.match[d] ? "judged_match" : "judged_mismatch");
-    } else C.count("unjudged_request");
+    judge(d, q, reqSrc, bc, acks, pos);
   }
-}
-
-// a served 60928 request owes an address claim 2 ms later: due at polls from +3 ms (the 64-bit scheduler is strict)
-static void checkAwait() {
-  for (size_t d = 0; d < sh.size(); d++)
-    if (sh[d].awaitSince >= 0 && (int64_t)g_now >= sh[d].awaitSince + 3) { C.fail("C09:unanswered:fc0:60928", "request served at op %ld but no address claim by t+%lld", sh[d].awaitLine, (long long)(g_now - sh[d].awaitSince)); sh[d].awaitSince = -1; }
+  for (auto &m : rest) { int d = devOfAddr(m.src); if (!bc && d >= 0 && d != target && m.pgn != 60928UL) C.fail("C09:answer-from-wrong-device", "device %d answers a request for device %d", d, target); }
+  leftover(rest, "request");
 }
 
 // ------------------------------------------------------------------------------------------ executing ops
@@ -415,7 +493,18 @@ static void feed(unsigned src, unsigned dst, unsigned prio, unsigned len, const 
 }
 static size_t carried(unsigned len) { size_t nfr = len <= 6 ? 1 : 1 + (len - 6 + 6) / 7; return 6 + 7 * (nfr - 1); }
 
+static void exec(const std::string &line0);
+// poll (10 ms steps) until every request that must be answered has its answer, at most ANSWER_BOUND_MS
+static void flushPending() {
+  if (!N || !cfg.built || !nodeMode()) return;
+  for (int guard = 0; guard < 130; guard++) {
+    bool any = false; for (auto &p : pend) if (p.active && p.demanded) any = true;
+    if (!any) return;
+    exec("t 10"); exec("poll");
+  }
+}
 static void endCase() {
+  flushPending();
   if (N && cfg.built) { C.cases++; if (caseServed && caseAck) C.nontrivial(caseDesc); }
   caseDesc.clear(); caseServed = caseAck = false;
 }
@@ -454,6 +543,7 @@ static void exec(const std::string &line0) {
     C.outs(msgsStr(out));
     std::vector<unsigned char> p(d.begin(), d.begin() + len);
     oracleGf(src, dst, p, out);
+    if (nodeMode()) checkDeadline();
     return;
   }
   if (w[0] == "t" && w.size() == 2) { g_now += num(1); C.out("ok"); return; }
@@ -461,8 +551,8 @@ static void exec(const std::string &line0) {
     N->sent.clear(); N->ParseMessages();
     std::vector<OutMsg> out = reassemble(N->sent); N->sent.clear();
     C.outs(msgsStr(out));
-    for (auto &m : out) { if (m.pgn == 60928UL) { checkClaim(m); int d = devOfAddr(m.src); if (d >= 0) sh[d].mayClaim = false; C.count("claim_seen"); } else C.fail("C09:poll-emits", "poll emitted PGN %lu", m.pgn); }
-    checkAwait();
+    if (nodeMode()) { unsolicited(routeLate(out, -1), "poll"); checkDeadline(); }
+    else if (!out.empty()) C.fail("C09:answer-in-listen-mode", "%zu messages", out.size());
     return;
   }
   if (w[0] == "getDevInfo" && w.size() == 2 && num(1) < cfg.devs.size()) {
@@ -505,13 +595,14 @@ static void exec(const std::string &line0) {
 // ------------------------------------------------------------------------------------------------ generators
 static void put(std::vector<unsigned char> &v, uint32_t x, int bytes) { for (int i = 0; i < bytes; i++) v.push_back((unsigned char)(x >> (8 * i))); }
 static void gf(unsigned src, unsigned dst, const std::vector<unsigned char> &p, int lenOverride = -1, unsigned prio = 3) {
+  flushPending();
   unsigned len = lenOverride >= 0 ? (unsigned)lenOverride : (unsigned)p.size(); if (len > 223) len = 223;
   std::vector<unsigned char> d = p; d.resize(carried(len), 0xff);
   char b[64]; snprintf(b, sizeof b, "gf %u %u %u %u ", src, dst, prio, len);
   exec(std::string(b) + hex(d.data(), d.size()));
 }
 static void readBack(int d) {
-  exec("t 3"); exec("poll");
+  exec("t 3"); exec("poll"); flushPending();
   if (d >= 0) { exec("getDevInfo " + std::to_string(d)); exec("getHeartbeat " + std::to_string(d)); }
   else for (size_t i = 0; i < cfg.devs.size(); i++) { exec("getDevInfo " + std::to_string(i)); exec("getHeartbeat " + std::to_string(i)); }
   exec("getInstDesc"); exec("readResetFlags");
